@@ -41,6 +41,7 @@ type Frame struct {
 	edgeConds map[[2]int]T
 	cur     ssa.Instruction // the instruction being executed
 	heads   map[*ssa.BasicBlock]*loopHead
+	rets    *[]retPoint // the return points collected so far (a recovered panic adds one)
 }
 
 // innermostHead: the state at the head of the innermost loop around the
@@ -287,6 +288,9 @@ func (fx *FnCtx) execFunction(fn *ssa.Function, args []Val, bindings []Val, st *
 	ins := map[*ssa.BasicBlock][]edgeState{}
 	ins[fn.Blocks[0]] = []edgeState{{cond: st.guard, st: st}}
 	var rets []retPoint
+	fr.rets = &rets
+	fx.frameStack = append(fx.frameStack, fr)
+	defer func() { fx.frameStack = fx.frameStack[:len(fx.frameStack)-1] }()
 	heads := map[*ssa.BasicBlock]*loopHead{}
 	fr.heads = heads
 	// loop contracts are keyed by ordinal: if the function's loop structure
